@@ -124,3 +124,18 @@ Theorem C09_mjd_day_roundtrip_partial : forall y m d, 1900 <= y < 2200 -> valid_
   civil_of (mjd_day y m d) 0%float = (y, m, d, 0, 0, 0, 0).
 Proof. exact mjd_day_roundtrip. Qed.
 Print Assumptions C09_mjd_day_roundtrip_partial.
+
+(* Sub-day part over the reals, under the four named facts about binary64 rounding and repr/float
+   (premises, not axioms): the recovered microsecond count is within 1 of the original. *)
+From Coq Require Import Reals.
+From DS Require Import Proofs.UtilsMjdReal.
+
+Theorem C09_mjd_microsecond_bound_partial :
+  forall (D us micro : Z) (mjdv S x : R),
+  Rabs (mjdv - (IZR D + IZR us / day_us)) <= half_ulp + / 2 ^ 50 ->
+  Rabs (S - mjdv) <= half_ulp ->
+  Rabs (x - (S - IZR D) * day_us) <= / 1000 ->
+  Rabs (IZR micro - x) <= / 2 ->
+  (Z.abs (micro - us) <= 1)%Z.
+Proof. exact mjd_us_within_one. Qed.
+Print Assumptions C09_mjd_microsecond_bound_partial.
